@@ -5,9 +5,34 @@ from gen import hexs
 
 VERIF = core.VERIF
 
+def anchor_files(pid):
+    for l in open(os.path.join(VERIF, 'properties.jsonl')):
+        p = json.loads(l)
+        if p['id'] == pid:
+            return p['anchors']['files']
+    return []
+
+def source_drift():
+    """files under /repo/include and /repo/tools whose content differs from anchors.lock.json (the state the model was
+    written against).  A drift is never a violation by itself: it switches the scale pools on (as in the thorough tier)"""
+    import hashlib, glob
+    lock = os.path.join(VERIF, 'anchors.lock.json')
+    if not os.path.exists(lock):
+        return []
+    want = json.load(open(lock))
+    out = []
+    for rel, h in want.items():
+        p = os.path.join(core.REPO, rel)
+        cur = hashlib.sha256(open(p, 'rb').read()).hexdigest() if os.path.exists(p) else None
+        if cur != h:
+            out.append(rel)
+    return out
+
 class Ctx:
     def __init__(self, pid, tier, seed):
         self.pid, self.tier, self.seed = pid, tier, seed
+        self.drift_files = source_drift()
+        self.scale_on = (tier == 'thorough') or bool(self.drift_files)
         self.rng = random.Random(seed * 1000003 + int(pid[1:]))
         self.violations = []      # concrete failing inputs: {prop,msg,case,block,impl,config}
         self.broken_ties = []     # {what, case, block, impl, model}
@@ -59,6 +84,8 @@ def correspond(ctx, cases, cfgs, judge, tag, model=True, model_env=None, oracle_
     bmap = dict(blocks)
     cmap = {c['id']: c for c in cases}
     impl = {}
+    if ctx.search_mode and cases and cases[0]['kind'] in ('trie',) and 'native' not in cfgs and 'tsan' not in cfgs:
+        cfgs = list(cfgs) + ['native']          # the intrinsic arms of bit_tools.hpp
     for cfg in cfgs:
         ctx.configs_used.add(cfg)
         impl[cfg] = core.run_driver(cfg, blocks, '%s-%s' % (ctx.pid, tag))
@@ -136,13 +163,27 @@ def j_comp(hdr, keys, ops, lines, case):
 # ------------------------------------------------------------------ key-set pools
 def keysets(ctx, nshaped, nsmall, big=False, huge=False):
     out = list(gen.shaped_sets(ctx.rng, nshaped, big=big))
-    if huge:
+    if huge or (ctx.scale_on and big):
         out.append(gen.huge_set(ctx.rng))
+
     alphas = [[97, 98], [0, 97], [97, 255], [0, 255]]
     for a in alphas:
         for K in gen.small_scope_sets(a, 2, ctx.rng, nsmall):
             out.append(('small-scope', K))
     return out
+
+def run_scale_tries(ctx, make_ops, judge, cfgs=('rel',)):
+    """key sets at power-of-two size boundaries (65536-byte shared prefixes, TAIL arrays of exactly 2^16 / 2^20 bytes):
+    implementation vs specification only -- the list-based model is far too slow at this depth.  Thorough tier, and
+    whenever a source file differs from anchors.lock.json."""
+    if not ctx.scale_on:
+        return
+    os.environ.setdefault('VERIF_CASE_TIMEOUT', '300')
+    sets = gen.scale_sets(ctx.rng)
+    if ctx.tier == 'quick':
+        sets = [s for s in sets if s[0] in ('scale-deep-65536', 'scale-tail-65536+0', 'scale-tail-1048576+0', 'scale-tail2-1048576')]
+    cases = trie_cases(ctx, sets, make_ops, tag='z')
+    correspond(ctx, cases, list(cfgs), judge, 'scale', model=False)
 
 def trie_cases(ctx, sets, make_ops, containers='svc', variants=gen.VARIANTS, bins=(0, 1), tag='t'):
     cases = []
@@ -171,6 +212,8 @@ def run_c01(ctx):
                 for c in 'svc':
                     cases.append(gen.trie_case('f%d-%s' % (n, desc), v, b, c, K, ops(K), {'desc': desc})); n += 1
     correspond(ctx, cases, ['rel', 'san'], j_trie, 'main')
+    run_scale_tries(ctx, lambda K: ['STATS'] + ['L ' + hexs(k) for k in K] + gen.id_ops(K) + ['E'], j_trie)
+
 
 def run_c02(ctx):
     sets = keysets(ctx, ctx.scale(50, 300), ctx.scale(10, 127), big=True, huge=(ctx.tier == 'thorough'))
@@ -186,6 +229,8 @@ def run_c02(ctx):
         v, b, c = gen.pick_configs(ctx.rng, i); i += 1
         cases.append(gen.trie_case('x%d-exh' % n, v, b, c, K, ['L ' + hexs(q) for q in Q]))
     correspond(ctx, cases, ['rel', 'san'], j_trie, 'main')
+    run_scale_tries(ctx, lambda K: ['L ' + hexs(q) for q in ([k for k in K] + [k[:-1] for k in K] + [k + b'a' for k in K] + [K[0][:len(K[0]) // 2]])], j_trie)
+
 
 def j_c03(hdr, keys, ops, lines, case):
     V = judges.judge_trie(hdr, keys, ops, lines)
@@ -208,6 +253,8 @@ def run_c03(ctx):
         o += ['USE mmap %d' % ctx.rng.choice([0, 1, 4, 7]), 'E', 'EC']
         return o
     correspond(ctx, trie_cases(ctx, sets, ops), ['rel', 'san'], j_c03, 'main')
+    run_scale_tries(ctx, lambda K: ['E', 'EC', 'USE load', 'E'] + ['L ' + hexs(k) for k in K], j_c03)
+
 
 def run_c04(ctx):
     sets = keysets(ctx, ctx.scale(50, 300), ctx.scale(10, 127), big=True, huge=(ctx.tier == 'thorough'))
@@ -217,6 +264,8 @@ def run_c04(ctx):
             o.append('P ' + hexs(q)); o.append('PC ' + hexs(q))
         return o + ['L ' + hexs(k) for k in (K if len(K) <= 60 else ctx.rng.sample(K, 60))]
     correspond(ctx, trie_cases(ctx, sets, ops), ['rel', 'san'], j_trie, 'main')
+    run_scale_tries(ctx, lambda K: [o for k in K for o in ('P ' + hexs(k + b'z'), 'PC ' + hexs(k))] + ['L ' + hexs(k) for k in K], j_trie)
+
 
 def run_c05(ctx):
     sets = keysets(ctx, ctx.scale(50, 300), ctx.scale(10, 127), big=True, huge=(ctx.tier == 'thorough'))
@@ -229,6 +278,8 @@ def run_c05(ctx):
             o.append('R ' + hexs(q)); o.append('RC ' + hexs(q))
         return o + ['L ' + hexs(k) for k in (K if len(K) <= 60 else ctx.rng.sample(K, 60))]
     correspond(ctx, trie_cases(ctx, sets, ops), ['rel', 'san'], j_trie, 'main')
+    run_scale_tries(ctx, lambda K: ['R -', 'RC -'] + [o for k in K for o in ('R ' + hexs(k[:-1]), 'RC ' + hexs(k[:len(k) // 2]), 'R ' + hexs(k + b'z'))] + ['L ' + hexs(k) for k in K], j_trie)
+
 
 def j_c06(hdr, keys, ops, lines, case):
     V = judges.judge_trie(hdr, keys, ops, lines)
@@ -266,6 +317,8 @@ def run_c06(ctx):
         o += ['USE mmapend', 'STATS', 'FILE'] + bat
         return o
     correspond(ctx, trie_cases(ctx, sets, ops), ['rel', 'san'], j_c06, 'main')
+    run_scale_tries(ctx, lambda K: ['STATS', 'FILE', 'USE load', 'STATS', 'FILE', 'L ' + hexs(K[0]), 'USE mmap 1', 'STATS', 'FILE', 'L ' + hexs(K[-1]), 'E'], j_c06)
+
 
 def j_c07(hdr, keys, ops, lines, case):
     V = []
@@ -310,6 +363,32 @@ def run_c09(ctx):
     cases.append(gen.words_case('words0', ctx.rng, ctx.scale(150, 3000)))
     correspond(ctx, cases, ['O3', 'native', 'san'], j_comp, 'main',
                per_cfg_model_env={'native': {'XMODEL_INTR': '1'}})
+    if ctx.scale_on:
+        # counters beyond 2^31 / 2^32: implementation vs arithmetic (no model: a list of 2^31 booleans is out of reach)
+        os.environ.setdefault('VERIF_CASE_TIMEOUT', '600')
+        correspond(ctx, scale_bv_cases()[:1 if ctx.tier == 'quick' else 2], ['O3'], j_scale_bv, 'scale', model=False)
+
+def j_scale_bv(hdr, keys, ops, lines, case):
+    V = []
+    exp = case['meta']['expect']
+    got = [l for l in lines if l.split()[0] in ('bvq', 'rank', 'select', 'get', 'bsize')]
+    if got != exp:
+        k = next((i for i in range(min(len(got), len(exp))) if got[i] != exp[i]), min(len(got), len(exp)))
+        V.append(('C09', 'scale bit vector (%s): got %r expected %r' % (case['meta']['desc'], got[k:k + 1] or lines[-1:], exp[k:k + 1])))
+    return V
+
+def scale_bv_cases():
+    out = []
+    for n in (2 ** 31 + 1, 2 ** 32 + 70):
+        # n ones followed by 5 zeros and a one
+        size, ones = n + 6, n + 1
+        ops = ['PUSHN %d 1' % n, 'PUSHN 5 0', 'PUSHN 1 1', 'BSIZE', 'BUILDQ', 'RANK %d' % size, 'RANK %d' % n, 'RANK %d' % (2 ** 31),
+               'SELECT %d' % (ones - 1), 'SELECT %d' % (2 ** 31 - 1), 'SELECT %d' % (n - 1), 'GET %d' % (size - 1), 'GET %d' % (size - 2)]
+        exp = ['bsize %d' % size, 'bvq %d %d' % (size, ones), 'rank %d' % ones, 'rank %d' % n, 'rank %d' % (2 ** 31),
+               'select %d' % (size - 1), 'select %d' % (2 ** 31 - 1), 'select %d' % (n - 1), 'get 1', 'get 0']
+        out.append({'id': 'bvscale-%d' % n, 'kind': 'bv', 'args': [1, 1], 'keys': None, 'ops': ops,
+                    'meta': {'expect': exp, 'desc': '%d ones' % ones}})
+    return out
 
 def run_c10(ctx):
     cases = gen.cv_cases(ctx.rng, ctx.scale(40, 400)) + gen.bc_cases(ctx.rng, ctx.scale(12, 120), ctx.tier)
@@ -394,8 +473,10 @@ def hist_ops(ctx, K, n):
             if k in ('IP', 'IR'): ops.append('%s %d %s' % (k, s, hexs(rng.choice(Q))))
             else: ops.append('%s %d' % (k, s))
             live[s] = False
-        elif r < 0.62:
+        elif r < 0.50:
             s = rng.choice(list(live)); ops.append('N %d' % s); live[s] = 'adv'
+        elif r < 0.62:
+            s = rng.choice(list(live)); ops.append('NI %d' % s); live[s] = 'adv'     # advance without reading the keyword
         elif r < 0.72:
             s = rng.choice(list(live))
             ops.append('N %d' % s); ops.append('G %d' % s) if False else None
@@ -434,6 +515,21 @@ def j_hist(hdr, keys, ops, lines, case):
             slots[int(o[1])] = [[], 0, None]
         elif o[0] in ('MV',) or (o[0] == 'USE'):
             slots = {}
+        elif o[0] == 'NI':
+            s = slots.get(int(o[1]))
+            if s is None: continue
+            lst, j, _ = s
+            if j < len(lst):
+                if l[:2] != ['ni', '1']:
+                    V.append(('C13', 'iterator advance #%d (keyword not read): got %s expected key %s' % (j, l, hexs(lst[j]))))
+                else:
+                    k = lst[j]; i = int(l[2])
+                    if k in ids and ids[k] != i:
+                        V.append(('C13', 'id of %s changed from %d to %d during the history' % (hexs(k), ids[k], i)))
+                    ids.setdefault(k, i); s[2] = (i, k)
+                s[1] = j + 1
+            elif l != ['ni', '0']:
+                V.append(('C13', 'exhausted/default iterator answered %s' % l))
         elif o[0] == 'N':
             s = slots.get(int(o[1]))
             if s is None: continue
@@ -482,7 +578,7 @@ def run_c13(ctx):
         out = []
         for x in o:
             out.append(x)
-            if x.startswith('N ') and ctx.rng.random() < 0.3:
+            if x.startswith(('N ', 'NI ')) and ctx.rng.random() < 0.3:
                 out.append('G ' + x.split()[1] + ' ?')
         return [y.replace(' ?', '') for y in out]
     cases = trie_cases(ctx, sets, ops)
@@ -497,7 +593,7 @@ def run_c13(ctx):
             elif o[0] == 'IE': slots[int(o[1])] = [len(K), 0, False]
             elif o[0] in ('IDP', 'IDR'): slots[int(o[1])] = [0, 0, False]
             elif o[0] in ('MV', 'USE'): slots = {}
-            elif o[0] == 'N':
+            elif o[0] in ('N', 'NI'):
                 s = slots.get(int(o[1]))
                 if s is None: continue
                 s[2] = s[1] < s[0]; s[1] += 1
@@ -593,6 +689,8 @@ def run_c16(ctx):
 def run_c17(ctx):
     sets = keysets(ctx, ctx.scale(80, 500), ctx.scale(20, 127), big=True, huge=(ctx.tier == 'thorough'))
     correspond(ctx, trie_cases(ctx, sets, lambda K: ['STATS']), ['rel'], j_trie, 'main')
+    run_scale_tries(ctx, lambda K: ['STATS'], j_trie)
+
 
 def run_c18(ctx):
     sets = keysets(ctx, ctx.scale(30, 150), ctx.scale(4, 30), big=True, huge=(ctx.tier == 'thorough'))
@@ -786,6 +884,7 @@ def write_evidence(ctx, P):
         'configs': sorted(ctx.configs_used), 'input_distribution': ctx.dist,
         'broken_ties': [b['what'] + (' [%s]' % b['case'] if b.get('case') else '') for b in ctx.broken_ties[:20]],
         'builder_model_drift_cases': ctx.drift,
+        'source_files_differing_from_anchors_lock': ctx.drift_files, 'scale_pools_on': ctx.scale_on,
         'known_findings_seen': getattr(ctx, 'known_hit', []),
         'notes': ctx.notes,
         'other_property_observations': sorted(set('%s: %s' % (v['prop'], re.sub(r'[0-9a-f]{6,}', '#', v['msg'])[:120]) for v in ctx.violations if v['prop'] != ctx.pid))[:20],
